@@ -55,9 +55,18 @@ def authored(rng):
     return lines
 
 
-def xml_escape(rng, s, allow_numeric=True):
+def xml_escape(rng, s, allow_numeric=True, html=False):
+    """one of the spellings a producer may use for each character: the predefined XML entities (&apos; and
+    &quot; included), numeric references and, for SAMI (html=True), HTML's named entities"""
+    from html.entities import codepoint2name
     out = []
     for ch in s:
+        if ch == "'" and rng.random() < 0.4:
+            out.append(rng.choice(["&apos;", "&#39;", "&#x27;"]))
+            continue
+        if html and ord(ch) > 127 and ord(ch) in codepoint2name and rng.random() < 0.5:
+            out.append(f"&{codepoint2name[ord(ch)]};")
+            continue
         if ch in "&<>":
             forms = [{"&": "&amp;", "<": "&lt;", ">": "&gt;"}[ch]]
             if allow_numeric:
@@ -109,7 +118,7 @@ def bounded(ctx, b):
         # ---- SAMI
         sy = []
         for j, lines in enumerate(cues):
-            body = rng.choice(["<br>", "<br/>", "<BR>"]).join(wrap_words(rng, [xml_escape(rng, w) for w in ln.split(" ")],
+            body = rng.choice(["<br>", "<br/>", "<BR>"]).join(wrap_words(rng, [xml_escape(rng, w, html=True) for w in ln.split(" ")],
                                                                        *rng.choice([("<i>", "</i>"), ("<b>", "</b>"), ("<u>", "</u>"), ("", "")]), wrap) for ln in lines)
             sy.append(f'<SYNC start="{(j + 1) * 1000}"><P class="ENCC">{body}</P></SYNC>')
         sami = ('<SAMI><HEAD><STYLE TYPE="text/css"><!-- .ENCC {Name: English; lang: en-US;} --></STYLE></HEAD><BODY>' + "\n".join(sy) + "</BODY></SAMI>")
